@@ -300,13 +300,16 @@ Qed.
 Lemma cache_op_wf c o :
   wf_cache c -> wf_cache (fst (fst (cache_op c o))).
 Proof.
-  intros [Hnd Hall]. destruct o as [n|t now]; cbn.
+  intros [Hnd Hall]. destruct o as [n|t now|t|t]; cbn.
   - destruct (assoc _ c) as [tr|] eqn:A; cbn; [|split; assumption].
     destruct (tgt_update tr n) as [tr' fd e| |] eqn:U; cbn; try (split; assumption).
     split; [now apply NoDup_keys_aset|]. apply Forall_aset; [assumption|]. cbn.
     eapply tgt_update_wf; [|exact U].
     apply assoc_In in A. rewrite Forall_forall in Hall. exact (Hall _ A).
   - split; [now apply NoDup_keys_adel|now apply Forall_adel].
+  - split; [now apply NoDup_keys_aset|]. apply Forall_aset; [assumption|exact I].
+  - split; [apply NoDup_keys_aset; now apply NoDup_keys_adel|].
+    apply Forall_aset; [now apply Forall_adel|exact I].
 Qed.
 
 Lemma fold_aset_wf ts : forall c : cache,
